@@ -12,6 +12,7 @@ use std::str::FromStr;
 
 pub const CHARS: &[&str] = &["0", "1", "9", ".", "e", "E", "_", "x", "b", "o", "-", "+", "\"", "\\", "#", "%", "@", "a", "i", "(", "[", " ", "\n", "\t", "é", "🦀", ":", ","];
 pub const PREFIXES: &[&str] = &["", "MOVE a ", "RX(", "DELAY 0 ", "PRAGMA A ", "a["];
+pub const WRAPS: &[(&str, &str)] = &[("RX(", ") 0"), ("RX(a", " 1) 0")];
 pub const CMDS: &[&str] = &[
     "ADD", "AND", "ASHR", "CALL", "CAPTURE", "CONVERT", "DECLARE", "DEFCAL", "DEFCIRCUIT", "DEFFRAME", "DEFGATE", "DEFWAVEFORM", "DELAY", "DIV", "EQ", "EXCHANGE", "FENCE", "GE", "GT", "HALT", "INCLUDE", "IOR", "JUMP",
     "JUMP-UNLESS", "JUMP-WHEN", "LABEL", "LE", "LOAD", "LT", "MEASURE", "MOVE", "MUL", "NEG", "NOP", "NOT", "PRAGMA", "PULSE", "RAW-CAPTURE", "RESET", "SET-FREQUENCY", "SET-PHASE", "SET-SCALE", "SHIFT-FREQUENCY", "SHIFT-PHASE",
@@ -258,6 +259,32 @@ fn run(ctx: &mut Ctx, which: Which) {
             ctx.bound("completed_char_length", json!(len));
         }
     }
+    // (a') the same strings wrapped so that most of them are *accepted*: inside a gate parameter, and
+    // directly after a name inside a gate parameter (no whitespace between name and operator characters)
+    ctx.bound("char_wrappers", json!(WRAPS));
+    for len in 0..=l {
+        let total = na.pow(len as u32);
+        for k0 in 0..total {
+            let mut k = k0;
+            for j in idx.iter_mut().take(len) {
+                *j = k % na;
+                k /= na;
+            }
+            for (pre, suf) in WRAPS {
+                let mk = || {
+                    let mut s = String::from(*pre);
+                    for j in 0..len {
+                        s.push_str(CHARS[idx[j]]);
+                    }
+                    s.push_str(suf);
+                    s
+                };
+                if ctx.take(|| json!({"text": mk()})) {
+                    visit(ctx, which, &mk(), 1, "chars-wrapped");
+                }
+            }
+        }
+    }
     // (b) command x operand tokens
     let d = ctx.tier.pick(3, 4);
     let no = OPS.len();
@@ -423,7 +450,7 @@ pub static C01: PropDef = PropDef {
     id: "C01",
     level: "exploration",
     engine: "sweep",
-    rule: "(a) every string of length <= 4 (thorough 5) over a 28-character alphabet (digits, radix/exponent letters, signs, quote, backslash, #, %, @, brackets, whitespace, two non-ASCII) behind 6 operand-reaching prefixes, fed to all 5 from_str entry points; (b) every command (54) followed by <= 3 (4) tokens of a 44-token operand alphabet; (c) 118 grammar templates with every single-token deletion / replacement / insertion over 46 tokens, all template pairs (thorough: two-token replacements, triples); (d) 16 expression-bearing templates x every expression tree of depth <= 1 (693) and a slice of depth 2. Worker processes: a panic is caught and located, an abort/stack overflow kills the worker and is attributed to the case. non-trivial = input accepted by at least one entry point (distinct by text)",
+    rule: "(a) every string of length <= 4 (thorough 5) over a 28-character alphabet (digits, radix/exponent letters, signs, quote, backslash, #, %, @, brackets, whitespace, two non-ASCII) behind 6 operand-reaching prefixes, fed to all 5 from_str entry points, and the same strings inside `RX(...) 0` and directly after a name in `RX(a... 1) 0` (so that most are accepted); (b) every command (54) followed by <= 3 (4) tokens of a 44-token operand alphabet; (c) 118 grammar templates with every single-token deletion / replacement / insertion over 46 tokens, all template pairs (thorough: two-token replacements, triples); (d) 16 expression-bearing templates x every expression tree of depth <= 1 (693) and a slice of depth 2. Worker processes: a panic is caught and located, an abort/stack overflow kills the worker and is attributed to the case. non-trivial = input accepted by at least one entry point (distinct by text)",
     assumptions: &["overflow checks and debug assertions are ON in the harness build so that integer overflow panics instead of wrapping", "inputs outside the alphabets (long programs, other Unicode) are not covered"],
     run: |ctx| run(ctx, Which::C01),
     replay: |c| replay(Which::C01, c),
